@@ -315,6 +315,10 @@ def conjunction_shape(dom, top):
     extra = set(kinds) - {'true', 'false'}
     if extra or 'true' not in kinds or 'false' not in kinds:
         return False, 'the top-level matcher returns %s: it must return False on the first non-matching key and True otherwise' % kinds
+    return conjunction_ast(top, kinds)
+
+
+def conjunction_ast(top, kinds=None):
     # the False return is inside the loop, guarded by the negated value match; the True return follows the loop
     loops = [n for n in walk_own(top.node) if isinstance(n, ast.For)]
     if len(loops) != 1:
